@@ -34,8 +34,6 @@ NON_RESTORED = {
     "rows": "memo: rows beyond num_rows() are dead; re-use is fenced by rows_valid_end which rollback resets",
     "scratch": "arena + working registers: items/grammar_stack entries beyond live rows are dead; definitive flag restored by brackets",
     "shared_box": "lexer tables: append-only memo (C14-R3)",
-    "trie_grammar_stack": "bracket register (re-initialised by trie_started_inner)",
-    "trie_lexer_stack": "bracket register (re-initialised by trie_started_inner)",
     "stats": "diagnostic counters",
     "metrics": "diagnostic",
     "trace_byte_stack": "ITEM_TRACE diagnostics",
@@ -58,6 +56,22 @@ TP_NON_RESTORED = {
 }
 
 
+def bracket_register(P, adt, f):
+    """a scalar field written only by the speculative bracket opener (plus struct literals) and read only by the two
+    bracket functions: it carries no state from one operation to the next"""
+    BR = {PS + "::trie_started_inner", PS + "::trie_finished_inner"}
+    writers, readers = set(), set()
+    for b in P.bodies.values():
+        if not P._is_code(b):
+            continue
+        w, m, r = P.own_effects(b)
+        if (adt, f) in w or any(x[0] == (adt, f) for x in m):
+            writers.add(b.id)
+        if (adt, f) in r and not b.rec.get("derived"):  # the derived Clone copies every field
+            readers.add(b.id)
+    return bool(writers) and writers <= {PS + "::trie_started_inner"} and readers <= BR
+
+
 def run(ctx):
     P = ctx.prog
     # ------------------------------------------------------------ R1 parser level
@@ -78,6 +92,9 @@ def run(ctx):
             ctx.ok("C12-R1", f, "written by %s (%s); restored by rollback (%s)" % (src.rsplit("::", 1)[1], how, rhow))
         elif f in NON_RESTORED:
             ctx.ok("C12-R1", f, "not restored — " + NON_RESTORED[f])
+        elif bracket_register(P, a, f):
+            ctx.ok("C12-R1", f, "not restored — bracket register: assigned only by trie_started_inner (and the constructor) and read "
+                                "only by the bracket functions, so its value is dead between brackets (decided structurally, by any name)")
         else:
             ctx.violation("C12-R1", "unrestored:" + f,
                           "ParserState.%s is written (%s) by %s on a commit/query path but ParserState::rollback neither "
@@ -109,7 +126,7 @@ def run(ctx):
     if adt:
         for fld in adt["variants"][0]["fields"]:
             n = fld["name"]
-            known = (PS, n) in D or (PS, n) in R or n in NON_RESTORED or n in (
+            known = (PS, n) in D or (PS, n) in R or n in NON_RESTORED or bracket_register(P, PS, n) or n in (
                 "grammar", "tok_env", "limits", "special_token_marker_token")
             ctx.check(known, "C12-R1", "classified:" + n, "field classified",
                       "ParserState.%s is a new/unclassified field: decide whether rollback must restore it" % n,
@@ -168,11 +185,17 @@ def run(ctx):
         # byte accounting mirrors commit: consume_token pushes no bytes for a token of the EOS *set* (eos_tokens) and
         # token_len bytes for any other; the bytes dropped here must be computed with the same predicate and measure
         # (Seed C12-r2: `tok != eos_token()` — the primary EOS only — charges a secondary EOS bytes never pushed.)
-        tl = trb.call_blocks("toktrie::toktree::TokTrie::token_len")
-        if ctx.floor("C12-R4", "token_len accumulation in TokenParser::rollback", len(tl), 1):
-            def eos_set_contains(e):
-                return (e[0] == "call" and e[1].endswith("::contains") and e[2]
-                        and L.is_field_read(TP, "eos_tokens")(L.strip_views(e[2][0])))
+        TLEN = "toktrie::toktree::TokTrie::token_len"
+
+        def eos_set_contains(e):
+            return (e[0] == "call" and e[1].endswith("::contains") and e[2]
+                    and L.is_field_read(TP, "eos_tokens")(L.strip_views(e[2][0])))
+        tl = trb.call_blocks(TLEN)
+        tl_closures = [P.bodies[c] for c in P.closures_of(trb.id) if c in P.bodies and P.bodies[c].call_blocks(TLEN)]
+        ctx.check(bool(tl) or bool(tl_closures), "C12-R4", "rollback-bytes:token_len-accumulation", "the bytes to drop are a sum of token_len(tok)",
+                  "TokenParser::rollback no longer sums token_len over the rolled-back tokens", site=trb.where())
+        if tl:
+            # loop form
             ge = L.guard_edges(trb, eos_set_contains, False)
             still = L.dominated_by_cut(trb, tl, ge) if ge else tl
             ctx.check(bool(ge) and not still, "C12-R4", "rollback-bytes:eos-set-members-count-zero",
@@ -180,34 +203,58 @@ def run(ctx):
                       "TokenParser::rollback charges token bytes without excluding every member of eos_tokens: commit pushes "
                       "no bytes for any EOS token, so rolling back over a secondary EOS drops bytes that were never pushed",
                       site=trb.where(tl[0]))
-            # and no other predicate short-cuts the charge: every skip of token_len inside the loop is the EOS-set arm
-            ct = ctx.body(TP + "::consume_token")
-            gc = L.guard_edges(ct, eos_set_contains, True)
-            ctx.check(bool(gc), "C12-R4", "commit-side:eos-arm-uses-eos-set", "consume_token's no-bytes arm tests eos_tokens.contains(tok)",
-                      "consume_token no longer tests eos_tokens.contains(tok): the rollback accounting has no matching commit predicate",
-                      site=ct.where())
+        elif tl_closures:
+            # iterator form: tokens.iter().filter(|t| !self.eos_tokens.contains(t)).map(|t| token_len(t)).sum()
+            ok = False
+            for bi, t in trb.calls():
+                e = ("call", t["f"].get("def", ""), [trb.expr(a) for a in t["args"]], bi)
+                chain = []
+                cur = e
+                while cur[0] == "call" and cur[2]:
+                    chain.append(cur)
+                    cur = cur[2][0]
+                names = [c[1].rsplit("::", 1)[-1] for c in chain]
+                if "map" in names and "filter" in names and names.index("map") < names.index("filter"):
+                    mp, fl = chain[names.index("map")], chain[names.index("filter")]
+                    m_ok = any(c in [x.id for x in tl_closures] for c in L._closures_in(mp[2][1]))
+                    f_ok = False
+                    for c in L._closures_in(fl[2][1]):
+                        clb = P.bodies.get(c)
+                        if clb is None:
+                            continue
+                        def eos_upvar(x, _clb=clb):
+                            if not (x[0] == "call" and x[1].endswith("::contains") and x[2]):
+                                return False
+                            src = L.upvar_source(P, _clb, L.strip_views(x[2][0]))
+                            return src is not None and L.is_field_read(TP, "eos_tokens")(L.strip_views(src))
+                        if L._returns_guard_value(clb, [(eos_upvar, False)]):
+                            f_ok = True
+                    ok = ok or (m_ok and f_ok)
+            ctx.check(ok, "C12-R4", "rollback-bytes:eos-set-members-count-zero",
+                      "token_len is mapped only over tokens that pass `!eos_tokens.contains(tok)`",
+                      "TokenParser::rollback sums token_len without filtering out every member of eos_tokens: commit pushes no bytes "
+                      "for any EOS token, so rolling back over a secondary EOS drops bytes that were never pushed", site=trb.where())
+        ct = ctx.body(TP + "::consume_token")
+        gc = L.guard_edges(ct, eos_set_contains, True)
+        ctx.check(bool(gc), "C12-R4", "commit-side:eos-arm-uses-eos-set", "consume_token's no-bytes arm tests eos_tokens.contains(tok)",
+                  "consume_token no longer tests eos_tokens.contains(tok): the rollback accounting has no matching commit predicate",
+                  site=ct.where())
         # the same byte count goes to Parser::rollback and to the llm_bytes truncation
         t = trb.blocks[cb]["term"]
-        acc = L.root_local(trb, trb.expr(t["args"][1])) if len(t["args"]) > 1 else None
-        if acc is None:
-            o = t["args"][1] if len(t["args"]) > 1 else None
-            pl = F.op_place(o) if o else None
-            acc = pl[0] if pl and len(pl) == 1 else None
+        acc = F.fmt_expr(trb.expr(t["args"][1])) if len(t["args"]) > 1 else None
         ok = False
-        detail = ""
+        detail = "?"
         for bi, (w, m, r) in P.block_effects(trb).items():
             if any(fld == (TP, "llm_bytes") and L.is_shrinker(c) for fld, c in m):
                 tt = trb.blocks[bi]["term"]
                 e = trb.expr(tt["args"][1]) if tt["t"] == "call" and len(tt["args"]) > 1 else None
                 detail = F.fmt_expr(e) if e else "?"
                 if e and e[0] == "bin" and e[1].startswith("Sub"):
-                    rhs = e[3]
-                    rl = rhs[1] if rhs[0] == "local" else (rhs[1][0] if rhs[0] == "place" and len(rhs[1]) == 1 else None)
-                    lhs_ok = rhs is not None and e[2][0] == "call" and e[2][1].endswith("::len")
-                    ok = lhs_ok and rl is not None and rl == acc
-        ctx.check(acc is not None and ok, "C12-R4", "rollback-bytes:same-count-for-parser-and-llm_bytes",
+                    lhs_ok = e[2][0] == "call" and e[2][1].endswith("::len") and e[2][2] and L.is_field_read(TP, "llm_bytes")(L.strip_views(e[2][2][0]))
+                    ok = lhs_ok and acc is not None and F.fmt_expr(e[3]) == acc
+        ctx.check(ok, "C12-R4", "rollback-bytes:same-count-for-parser-and-llm_bytes",
                   "llm_bytes is truncated to len - n where n is the very count passed to Parser::rollback",
-                  "llm_bytes is truncated to `%s`, which is not len minus the byte count given to Parser::rollback" % detail, site=trb.where(cb))
+                  "llm_bytes is truncated to `%s`, which is not llm_bytes.len() minus the byte count given to Parser::rollback (`%s`)" % (detail, acc), site=trb.where(cb))
         # check_initialized dominates the parser rollback
         ci = L.guard_edges(trb, L.is_call_to(TP + "::check_initialized"), True)
         still = L.dominated_by_cut(trb, [cb], ci) if ci else [cb]
